@@ -50,4 +50,21 @@ theorem step_store (env : Env) (c c' : Cfg) (io io' : Isa.IOSt) (h : Step env c 
   | svcGet s m' hd ha hs hst => exact Or.inr (key _ _ _ hst)
   | _ => exact Or.inl rfl
 
+/-- Along any run of `IAm`, a word whose content has changed lies inside the memory and holds no
+    instruction byte. -/
+theorem steps_changed (env : Env) (c c' : Cfg) (io io' : Isa.IOSt) (h : Steps env c io c' io') :
+    ∀ w, c'.mem.read w ≠ c.mem.read w → w < memWords ∧ env.isCode w = false := by
+  induction h with
+  | refl c io => intro w hw; exact absurd rfl hw
+  | step c io c1 io1 c2 io2 hs _ ih =>
+    intro w hw
+    by_cases h1 : c2.mem.read w = c1.mem.read w
+    · rcases step_store env c c1 io io1 hs with hm | ⟨w0, v, hm, hlt, hc⟩
+      · rw [h1, hm] at hw; exact absurd rfl hw
+      · rw [h1, hm] at hw
+        by_cases hw0 : w0 = w
+        · subst hw0; exact ⟨hlt, hc⟩
+        · rw [Mem.read_write_other _ _ _ _ hw0] at hw; exact absurd rfl hw
+    · exact ih w h1
+
 end Hex.C01s
